@@ -134,11 +134,12 @@ def imageDataStream (inp : Bytes) (d : Dict) : PR Obj :=
       | none => .error
       | some nc =>
         let width := asUsize w; let height := asUsize h; let bits := asUsize bpc
-        if nc * bits ≥ USIZE then .panic "mul" else
-        if width * (nc * bits) ≥ USIZE then .panic "mul" else
-        if width * (nc * bits) + 7 ≥ USIZE then .panic "add" else
+        -- checked arithmetic: an overflow is `InvalidInlineImage`
+        if nc * bits ≥ USIZE then .error else
+        if width * (nc * bits) ≥ USIZE then .error else
+        if width * (nc * bits) + 7 ≥ USIZE then .error else
         let stride := (width * (nc * bits) + 7) / 8
-        if height * stride ≥ USIZE then .panic "mul" else
+        if height * stride ≥ USIZE then .error else
         let length := height * stride
         match getAbbr d [70] FILTER_KEY with
         | some _ => .error
